@@ -19,7 +19,15 @@ thread_local! {
     static WHO: RefCell<Option<(String, Sender<(String, String)>, Arc<Mutex<Receiver<()>>>)>> = const { RefCell::new(None) };
 }
 
+/// the yield point inside Memtable::insert parks the writer only while a probe is armed
+static PROBE: std::sync::atomic::AtomicBool = std::sync::atomic::AtomicBool::new(false);
+/// seqno taken by the writer thread for its last write
+static LAST_W_SEQ: std::sync::atomic::AtomicU64 = std::sync::atomic::AtomicU64::new(0);
+
 fn yield_handler(point: &'static str) {
+    if point == "memtable:insert" && !PROBE.swap(false, std::sync::atomic::Ordering::AcqRel) {
+        return;
+    }
     WHO.with(|w| {
         if let Some((name, tx, rx)) = &*w.borrow() {
             let _ = tx.send((name.clone(), point.to_string()));
@@ -74,7 +82,7 @@ pub fn run(args: &[String]) -> i32 {
         let mut cmd: std::collections::HashMap<String, Sender<Value>> = std::collections::HashMap::new();
         let mut cont: std::collections::HashMap<String, Sender<()>> = std::collections::HashMap::new();
         let mut handles = vec![];
-        for p in ["w", "f", "c", "k"] {
+        for p in ["w", "f", "c", "k", "r"] {
             let (ctx, crx) = channel::<Value>();
             let (gtx, grx) = channel::<()>();
             cmd.insert(p.to_string(), ctx);
@@ -96,6 +104,7 @@ pub fn run(args: &[String]) -> i32 {
                         match c["op"].as_str().unwrap_or("") {
                             "write" => {
                                 let s = seq.next();
+                                LAST_W_SEQ.store(s, std::sync::atomic::Ordering::Release);
                                 let k = conc.key(c["k"].as_i64().unwrap_or(1));
                                 if c["t"] == "V" {
                                     tree.insert(k, conc.val(c["v"].as_i64().unwrap_or(1)), s);
@@ -135,8 +144,94 @@ pub fn run(args: &[String]) -> i32 {
             let step = stp["step"].as_str().unwrap_or("").to_string();
             let starts = matches!(
                 (p.as_str(), step.as_str()),
-                ("w", "write") | ("f", "rotate") | ("f", "collect") | ("c", "choose") | ("k", "clear")
+                ("w", "write") | ("f", "rotate") | ("r", "rotate") | ("f", "collect") | ("c", "choose") | ("k", "clear")
             );
+            let mut absent = false;
+            if p == "w" && step == "write" && stp["probe"].as_bool().unwrap_or(false) {
+                // Atomicity probe of the writer's critical section (append_entry holds the version
+                // read lock across the memtable insert): park the writer inside the insert and
+                // let another thread seal the memtable and flush it.  If the lock is held the
+                // rotation blocks until the writer is released (the expected outcome); if it is
+                // not, rotation + flush complete first and the recorded lines show what happens
+                // to the write.
+                let mut lines: Vec<(String, String, String, String)> = vec![];
+                PROBE.store(true, std::sync::atomic::Ordering::Release);
+                let _ = cmd["w"].send(json!({"op": "write", "k": stp["arg"]["k"], "t": stp["arg"]["t"], "v": stp["arg"]["v"]}));
+                let parked = matches!(ev_rx.recv_timeout(Duration::from_secs(20)),
+                                      Ok((who, what)) if who == "w" && what == "memtable:insert");
+                if !parked {
+                    PROBE.store(false, std::sync::atomic::Ordering::Release);
+                    lines.push(("w".into(), "write".into(), "skip:probe did not park".into(), String::new()));
+                } else {
+                    let _ = cmd["r"].send(json!({"op": "rotate"}));
+                    let rot_done = matches!(ev_rx.recv_timeout(Duration::from_millis(300)),
+                                            Ok((who, what)) if who == "r" && what.starts_with("done:"));
+                    if rot_done {
+                        // not blocked: seal + flush the memtable the writer is about to insert into
+                        lines.push(("r".into(), "rotate".into(), "ok".into(), "during-write".into()));
+                        let _ = cmd["f"].send(json!({"op": "flush"}));
+                        loop {
+                            match ev_rx.recv_timeout(Duration::from_secs(20)) {
+                                Ok((who, what)) if who == "f" && what.starts_with("done:") => {
+                                    lines.push(("f".into(), "register".into(), what[5..].to_string(), "during-write".into()));
+                                    break;
+                                }
+                                Ok((who, _)) if who == "f" => {
+                                    let _ = cont["f"].send(());
+                                }
+                                Ok(_) => {}
+                                Err(_) => {
+                                    lines.push(("f".into(), "register".into(), "skip:stuck".into(), String::new()));
+                                    break;
+                                }
+                            }
+                        }
+                    }
+                    let _ = cont["w"].send(());
+                    let mut wdone = false;
+                    let mut rdone = rot_done;
+                    while !(wdone && rdone) {
+                        match ev_rx.recv_timeout(Duration::from_secs(20)) {
+                            Ok((who, what)) if who == "w" && what.starts_with("done:") => {
+                                wdone = true;
+                                lines.push(("w".into(), "write".into(), what[5..].to_string(), "done".into()));
+                            }
+                            Ok((who, what)) if who == "r" && what.starts_with("done:") => {
+                                rdone = true;
+                                lines.push(("r".into(), "rotate".into(), what[5..].to_string(), "done".into()));
+                            }
+                            Ok(_) => {}
+                            Err(_) => {
+                                lines.push(("w".into(), "write".into(), "skip:stuck".into(), String::new()));
+                                break;
+                            }
+                        }
+                    }
+                }
+                let sl = sess.lock().expect("lock");
+                let mut bad = false;
+                // every line of the probe carries the state / reads after the whole probe, so the
+                // write comes first: from there on the ghost expects it to be readable
+                lines.sort_by_key(|l| l.0 != "w");
+                for (lp, lstep, ret, at) in lines {
+                    let rk = ret.split(':').next().unwrap_or("").to_string();
+                                        let rec = json!({"op": {"op": "cstep", "p": lp, "step": lstep, "arg": stp["arg"], "at": at},
+                        "ret": ret, "rk": rk, "ro": false,
+                        "info": {"s0": 0, "s": LAST_W_SEQ.load(std::sync::atomic::Ordering::Acquire)},
+                        "st": sl.project(), "obs": sl.observe()});
+                    writeln!(wr, "{rec}").expect("write");
+                    if rk == "skip" {
+                        bad = true;
+                    }
+                }
+                drop(sl);
+                if bad {
+                    stuck += 1;
+                    aborted = true;
+                    break;
+                }
+                continue;
+            }
             if starts {
                 let c = match step.as_str() {
                     "write" => json!({"op": "write", "k": stp["arg"]["k"], "t": stp["arg"]["t"], "v": stp["arg"]["v"]}),
@@ -150,10 +245,14 @@ pub fn run(args: &[String]) -> i32 {
                 let _ = cont[&p].send(());
             } else {
                 // the model takes a step the real operation does not have any more (it finished
-                // early, e.g. flush with nothing sealed): nothing to do
+                // early, e.g. a flush that found nothing sealed although the model has a sealed
+                // memtable): no thread to wait for; the recorded state shows what that means
+                absent = true;
             }
             // wait for this process to park or finish
-            let (ret, at) = match ev_rx.recv_timeout(Duration::from_secs(20)) {
+            let (ret, at) = if absent {
+                ("ok".to_string(), "absent".to_string())
+            } else { match ev_rx.recv_timeout(Duration::from_secs(20)) {
                 Ok((who, what)) if who == p => {
                     if let Some(r) = what.strip_prefix("done:") {
                         inside.insert(p.clone(), false);
@@ -165,7 +264,7 @@ pub fn run(args: &[String]) -> i32 {
                 }
                 Ok((who, what)) => (format!("skip:unexpected event from {who}: {what}"), String::new()),
                 Err(_) => ("skip:stuck".to_string(), String::new()),
-            };
+            } };
             let s = sess.lock().expect("lock");
             let rk = ret.split(':').next().unwrap_or("").to_string();
             let rec = json!({"op": {"op": "cstep", "p": p, "step": step, "arg": stp["arg"], "at": at},
